@@ -26,6 +26,42 @@ def partitionConfig (count id : Option Nat) : Except Unit (Option (Nat × Nat)) 
       else if i ≥ c then .error ()        -- "partition id (zero-based) must be less than count"
       else .ok (some (c, i))
 
+/-- where the two partition options can come from: the command line, the `SLT_PARTITION_*` variables,
+    the CI system's own variables (Buildkite); `none` = not given / not set -/
+structure PartSources where
+  flagCount : Option Str := none
+  flagId : Option Str := none
+  sltCount : Option Str := none
+  sltId : Option Str := none
+  bkCount : Option Str := none
+  bkId : Option Str := none
+
+/-- `import_partition_config_from_ci` (main.rs 187-209): the `SLT_PARTITION_*` environment after the
+    import, as (count, id) — the CI variables are copied only when NEITHER `SLT_` variable is set and
+    BOTH CI variables are -/
+def importCi (s : PartSources) : Option Str × Option Str :=
+  if s.sltId.isSome || s.sltCount.isSome then (s.sltCount, s.sltId)
+  else match s.bkId, s.bkCount with
+    | some i, some c => (some c, some i)
+    | _, _ => (none, none)
+
+/-- clap: a flag wins over the environment variable of the same option -/
+def effectivePart (s : PartSources) : Option Str × Option Str :=
+  ((s.flagCount.orElse fun _ => (importCi s).1), (s.flagId.orElse fun _ => (importCi s).2))
+
+/-- the whole decision: both values must parse as `u64` (clap rejects the command line otherwise),
+    then `partitionConfig` -/
+def partitionFromSources (s : PartSources) : Except Unit (Option (Nat × Nat)) :=
+  let parse (o : Option Str) : Except Unit (Option Nat) :=
+    match o with
+    | none => .ok none
+    | some t => match parseU64 t with
+      | some n => .ok (some n)
+      | none => .error ()
+  match parse (effectivePart s).1, parse (effectivePart s).2 with
+  | .ok c, .ok i => partitionConfig c i
+  | _, _ => .error ()
+
 /-- the files of one glob after partitioning: filtered only when the glob matched more than one -/
 def selectFiles (h : Str → Nat) (cfg : Option (Nat × Nat)) (files : List Str) : List Str :=
   match cfg with
